@@ -760,24 +760,30 @@ func castArr(opts *options, v value) (arr []value, single bool, err Error) {
 		return sub.c.fields.array(), false, nil
 	}
 	if ref, ok := v.(*cfgDynamic); ok {
-		// follow a chain of references to the value it ends at
-		seen := map[*cfgDynamic]bool{}
-		var unrefed value = ref
-		for {
-			next, ok := unrefed.(*cfgDynamic)
-			if !ok || seen[next] {
-				break
-			}
-			seen[next] = true
+		unrefed, err := ref.getValue(opts)
+		if err != nil {
+			// the error is about the setting itself: report its own path and
+			// source (the enclosing configuration may have been created
+			// without metadata)
+			return nil, false, raisePathErr(ErrMissing, ref.meta(), err.Error(), ref.ctx.path("."))
+		}
 
-			var err error
-			unrefed, err = next.getValue(opts)
-			if err != nil {
-				// the error is about the setting itself: report its own path and
-				// source (the enclosing configuration may have been created
-				// without metadata)
-				return nil, false, raisePathErr(ErrMissing, ref.meta(), err.Error(), ref.ctx.path("."))
+		// follow the rest of a chain of references to the value it ends at,
+		// in a scope of its own: if that is no list, the value is evaluated
+		// once more as a list of one element
+		if next, ok := unrefed.(*cfgDynamic); ok {
+			closeScope := opts.scopeActiveFields()
+			seen := map[*cfgDynamic]bool{ref: true}
+			for ok && !seen[next] {
+				seen[next] = true
+				unrefed, err = next.getValue(opts)
+				if err != nil {
+					closeScope()
+					return nil, false, raisePathErr(ErrMissing, ref.meta(), err.Error(), ref.ctx.path("."))
+				}
+				next, ok = unrefed.(*cfgDynamic)
 			}
+			closeScope()
 		}
 
 		if sub, ok := unrefed.(cfgSub); ok {
